@@ -57,7 +57,9 @@ func vfPatternMatches(p, name string) bool {
 // for exactly the direct subscriptions on matching resources; the re-fetched
 // content reaches the client as events and its copy converges.
 func VF_C12_L1_ResetFanout() {
-	w := vfNewWorld(Config{})
+	// throttle: the reset throttle of the configuration (0 = none)
+	throttle := zzvf.ParamOr("throttle", 0)
+	w := vfNewWorld(Config{ResetThrottle: throttle})
 	cl := w.connect("cidA", versionLatest)
 	r := vfNewRun(w, cl)
 	ref := vfNewRefClient()
@@ -67,6 +69,9 @@ func VF_C12_L1_ResetFanout() {
 		"test.q":   `{"model":{"v":1},"query":"n=1"}`,
 		"test.d":   `{"model":{"v":1}}`,
 	}
+	// badA: how the re-fetch of test.a is answered (0 = with the new content,
+	// 1 = another resource type, 2 = an error, 3 = a malformed value)
+	badA := 0
 	serve := func(hold string) {
 		for i := 0; i < 20; i++ {
 			var q *vfRequest
@@ -82,6 +87,12 @@ func VF_C12_L1_ResetFanout() {
 			switch {
 			case strings.HasPrefix(q.subject, "access."):
 				w.mq.answer(q, []byte(`{"result":{"get":true}}`), nil)
+			case q.subject == "get.test.a" && badA == 1:
+				w.mq.answer(q, []byte(`{"result":{"collection":[1]}}`), nil)
+			case q.subject == "get.test.a" && badA == 2:
+				w.mq.answer(q, vfErrPayload("system.internalError", "Internal"), nil)
+			case q.subject == "get.test.a" && badA == 3:
+				w.mq.answer(q, []byte(`{"result":{"model":{"v":{"foo":1}}}`), nil)
 			default:
 				w.mq.answer(q, []byte(`{"result":`+content[q.subject[len("get."):]]+`}`), nil)
 			}
@@ -117,8 +128,11 @@ func VF_C12_L1_ResetFanout() {
 	observe()
 	zzvf.Reach("c12l1-cached")
 	// the reset
-	p1 := vfResetPatterns[zzvf.Choose("resource-pattern", len(vfResetPatterns))]
-	p2 := vfResetPatterns[zzvf.Choose("access-pattern", len(vfResetPatterns))]
+	// respats / accpats bound how many of the candidate patterns are tried
+	np1 := zzvf.ParamOr("respats", len(vfResetPatterns))
+	np2 := zzvf.ParamOr("accpats", len(vfResetPatterns))
+	p1 := vfResetPatterns[zzvf.Choose("resource-pattern", np1)]
+	p2 := vfResetPatterns[zzvf.Choose("access-pattern", np2)]
 	mark := len(w.mq.reqs)
 	// the services changed their state
 	content["test.a"] = `{"model":{"v":2,"w":3}}`
@@ -126,7 +140,15 @@ func VF_C12_L1_ResetFanout() {
 	content["test.q"] = `{"model":{"v":2},"query":"n=1"}`
 	content["test.d"] = `{"model":{"v":2}}`
 	zzvf.Note("reset resources [" + p1 + "] access [" + p2 + "]")
-	payload, _ := json.Marshal(map[string][]string{"resources": {p1}, "access": {p2}})
+	// a further pattern in front of each list: none, an invalid one (which
+	// must not affect the others), one matching test.a again, a wildcard
+	extra := []string{"", "test..a", "test.a", "test.>"}[zzvf.Choose("extra-pattern", 4)]
+	lr, la := []string{p1}, []string{p2}
+	if extra != "" {
+		lr, la = []string{extra, p1}, []string{extra, p2}
+		zzvf.Note("extra leading pattern [" + extra + "]")
+	}
+	payload, _ := json.Marshal(map[string][]string{"resources": lr, "access": la})
 	w.mq.event("event.test.a", "custom", []byte(`{"n":1}`))
 	w.mq.event("system", "reset", payload)
 	w.settle()
@@ -135,34 +157,57 @@ func VF_C12_L1_ResetFanout() {
 	w.settle()
 	gets := map[string]int{}
 	accesses := map[string]int{}
-	for _, q := range w.mq.reqs[mark:] {
-		if strings.HasPrefix(q.subject, "get.") {
-			gets[q.subject[4:]+"|"+vfQueryOf(q.payload)]++
-		}
-		if strings.HasPrefix(q.subject, "access.") {
-			accesses[q.subject[7:]]++
-		}
-	}
 	want := func(name string) int {
-		if vfPatternMatches(p1, name) {
+		if vfPatternMatches(p1, name) || vfPatternMatches(extra, name) {
 			return 1
 		}
 		return 0
 	}
-	zzvf.Assert(gets["test.a|"] == want("test.a"), "plain-resource-refetched-iff-matching")
-	zzvf.Assert(gets["test.b.c|"] == want("test.b.c"), "nested-resource-refetched-iff-matching")
-	zzvf.Assert(gets["test.q|n=1"] == want("test.q"), "query-variant-refetched-once-with-normalised-query")
-	zzvf.Assert(gets["test.q|x=1"] == 0 && gets["test.q|x=2"] == 0, "raw-queries-not-refetched")
-	zzvf.Assert(gets["test.d|"] == want("test.d"), "resource-with-outstanding-initial-get-refetched-iff-matching")
 	wantAcc := func(name string, subs int) int {
-		if vfPatternMatches(p2, name) {
+		if vfPatternMatches(p2, name) || vfPatternMatches(extra, name) {
 			return subs
 		}
 		return 0
 	}
-	zzvf.Assert(accesses["test.a"] == wantAcc("test.a", 1), "access-rerequested-iff-matching")
-	zzvf.Assert(accesses["test.b.c"] == wantAcc("test.b.c", 1), "access-rerequested-iff-matching-nested")
-	zzvf.Assert(accesses["test.q"] == wantAcc("test.q", 2), "access-rerequested-per-direct-subscription-on-query-resource")
+	// with a reset throttle the requests go out one by one as the answers
+	// come in, so they are counted after the services have answered
+	count := func() {
+		for _, q := range w.mq.reqs[mark:] {
+			if strings.HasPrefix(q.subject, "get.") {
+				gets[q.subject[4:]+"|"+vfQueryOf(q.payload)]++
+			}
+			if strings.HasPrefix(q.subject, "access.") {
+				accesses[q.subject[7:]]++
+			}
+		}
+		zzvf.Assert(gets["test.a|"] == want("test.a"), "plain-resource-refetched-iff-matching")
+		zzvf.Assert(gets["test.b.c|"] == want("test.b.c"), "nested-resource-refetched-iff-matching")
+		zzvf.Assert(gets["test.q|n=1"] == want("test.q"), "query-variant-refetched-once-with-normalised-query")
+		zzvf.Assert(gets["test.q|x=1"] == 0 && gets["test.q|x=2"] == 0, "raw-queries-not-refetched")
+		zzvf.Assert(gets["test.d|"] == want("test.d"), "resource-with-outstanding-initial-get-refetched-iff-matching")
+		// a resource matched by two listed patterns may be re-checked once
+		// per pattern (the statement fixes the set of subscriptions, not
+		// the number of checks)
+		accOK := func(name string, subs int) bool {
+			n, w := accesses[name], wantAcc(name, subs)
+			if vfPatternMatches(p2, name) && vfPatternMatches(extra, name) {
+				return n >= w && n <= 2*w
+			}
+			return n == w
+		}
+		zzvf.Assert(accOK("test.a", 1), "access-rerequested-iff-matching")
+		zzvf.Assert(accOK("test.b.c", 1), "access-rerequested-iff-matching-nested")
+		zzvf.Assert(accOK("test.q", 2), "access-rerequested-per-direct-subscription-on-query-resource")
+	}
+	if throttle == 0 {
+		count()
+	}
+	if want("test.a") == 1 {
+		badA = zzvf.Choose("refetch-answer", 4)
+		if badA != 0 {
+			zzvf.Note("the re-fetch of test.a is answered badly")
+		}
+	}
 	// answers: the outstanding initial get first or last
 	if zzvf.Choose("initial-get-first", 2) == 0 {
 		serve("")
@@ -171,9 +216,19 @@ func VF_C12_L1_ResetFanout() {
 		serve("")
 	}
 	observe()
+	if throttle > 0 {
+		count()
+	}
 	w.mq.event("event.test.a", "custom", []byte(`{"n":3}`))
 	w.settle()
 	observe()
+	// a later state event on a reset resource is applied as usual
+	later := want("test.a") == 1 && zzvf.ParamOr("later", 1) == 1
+	if later {
+		w.mq.event("event.test.a", "change", []byte(`{"values":{"v":7}}`))
+		w.settle()
+		observe()
+	}
 	zzvf.Assert(vfQuiescent(w), "run-reaches-quiescence")
 	customs := 0
 	for _, f := range cl.frames {
@@ -196,7 +251,19 @@ func VF_C12_L1_ResetFanout() {
 		zzvf.Reach("c12l1-converged")
 		switch name {
 		case "test.a":
-			zzvf.Assert(len(res.model) == 2 && res.model["v"] == "2" && res.model["w"] == "3", "model-converges-after-reset")
+			if badA != 0 {
+				// the discarded answer changed nothing; later valid
+				// messages are processed normally
+				if later {
+					zzvf.Assert(len(res.model) == 1 && res.model["v"] == "7", "state-event-after-a-discarded-refetch-answer-is-applied")
+				} else {
+					zzvf.Assert(len(res.model) == 1 && res.model["v"] == "1", "discarded-refetch-answer-changes-nothing")
+				}
+			} else if later {
+				zzvf.Assert(len(res.model) == 2 && res.model["v"] == "7" && res.model["w"] == "3", "state-event-after-a-reset-is-applied")
+			} else {
+				zzvf.Assert(len(res.model) == 2 && res.model["v"] == "2" && res.model["w"] == "3", "model-converges-after-reset")
+			}
 		case "test.b.c":
 			zzvf.Assert(len(res.col) == 3 && res.col[0] == "2" && res.col[1] == "1" && res.col[2] == "1", "collection-converges-after-reset")
 		case "test.q", "test.d":
